@@ -258,6 +258,7 @@ def run_case(case, seed):
         if np.iscomplexobj(M):
             xs.append(("x1c", g.standard_normal(n) + 1j * g.standard_normal(n)))
         xs.append(("Xzero", np.stack([g.standard_normal(n), np.zeros(n)], axis=1)))  # f(A) 0 = 0, next to a generic column
+        xs.append(("Xempty", np.zeros((n, 0))))  # an empty block of operands
         if n >= 3:
             # heterogeneous batch: an eigenvector (its Krylov space is exhausted after one step), a random column, a sum of two eigenvectors
             w_, V_ = (np.linalg.eigh(M) if np.allclose(M, np.conj(M).T) else np.linalg.eig(M))
@@ -278,7 +279,7 @@ def run_case(case, seed):
             maxerr = max(maxerr, err if np.isfinite(err) else 1.0)
             if not np.all(np.isfinite(y)) or err > tol:
                 bad(f"@{tag}", "value", {"rel_err": err, "got": short(y), "want": short(want)})
-            h.update(np.round(y / (np.abs(want).max() + 1e-300), 5).tobytes())
+            h.update(np.round(y / (np.abs(want).max(initial=0.0) + 1e-300), 5).tobytes())
         # operand dtype independence: a float32 (complex64) / integer operand holds values that double precision represents exactly, and the
         # result has the promoted dtype, so f(A) @ x must not depend on the dtype the operand arrives in
         for tag, xl in (("x1lowp", xs[0][1].astype(np.float32)), ("X2lowp", (xs[1][1] + (1j * xs[1][1][::-1] if np.iscomplexobj(M) else 0)).astype(
